@@ -103,6 +103,8 @@ func runC12(ctx *core.Ctx) {
 	ctx.Rule("P5", "first pass: a seek or copy error in the hashing pass returns before the data-file copy or the index write is attempted", 1)
 	c12PutOrder(ctx, "P3")
 	expectedIDReadOnly(ctx, "P7")
+	truncGuard(ctx, "P8", false)
+	lookupGates(ctx, "LG")
 	ctx.Rule("P6", "digests reach the variable that is compared: a hash Sum call whose result is discarded is given x[:0] of an array x of at least the digest size, so that the digest lands in x; any other argument leaves x unchanged (all zero), the 'already present' comparison can then never succeed, and every Put of present content rewrites a shared data file in place, where a failing source truncates it under the entries that share it", 2)
 	for _, name := range []string{"(*Cache).put", "(*Cache).copyFile"} {
 		f := ctx.Need("P6", "cache", name)
@@ -457,15 +459,14 @@ func runC12(ctx *core.Ctx) {
 			return f.Pkg != nil && f.Pkg != p.Pkg("cache")
 		}) {
 			fg := graph(p, f)
-			var opened []ssa.Value
-			for _, c := range fg.Calls("os.OpenFile", "os.Create") {
-				opened = append(opened, c.Call.Args[0])
-			}
+			opens := fg.Calls("os.OpenFile", "os.Create")
 			for _, c := range fg.Calls("os.Remove", "os.RemoveAll", "os.Rename") {
 				n++
 				ok := false
-				for _, o := range opened {
-					if c.Call.Args[0] == o {
+				for _, o := range opens {
+					// the same name, and only once this function has itself opened it successfully:
+					// before that the file on disk is somebody else's (possibly a valid shared output)
+					if c.Call.Args[0] == o.Call.Args[0] && fg.Dominates(o, c) && ssax.KnownNil(fg.FactsAtInstr(c), ssax.Extracted(o, 1), true) {
 						ok = true
 					}
 				}
